@@ -967,6 +967,9 @@ pub enum Associativity {
     /// `Both` means mathematically associative, like `+` or `*`
     Both,
     Right,
+    /// Not associative: a nested operation of equal strength is always
+    /// parenthesized, on either side (comparison operators)
+    None,
 }
 
 impl Associativity {
@@ -1038,6 +1041,9 @@ impl SQLExpression for BinaryOperator {
         use BinaryOperator::*;
         match self {
             Minus | Divide | Modulo => Associativity::Left,
+            // `a = b = c` is a syntax error in PostgreSQL and `a = (b < c)` is
+            // not `a = b < c` in SQLite, so comparisons never chain
+            Gt | Lt | GtEq | LtEq | Eq | NotEq => Associativity::None,
             _ => Associativity::Both,
         }
     }
